@@ -55,11 +55,13 @@ package verifier
 //@   loop 1 decreases len(chains) - it
 //@   loop 1 invariant repOK(chains, parentSet, it)
 //@   loop 2 invariant parents == nil || fresh(parents)
+//@   loop 2 invariant parents == nil || len(parents) >= 1
 //@   loop 2 invariant forall(j, 0, len(parents), px(j) ==> repOf(chains, parentSet, parents[j]), spec.pos(j))
 //@   loop 2 invariant forall(j, 0, len(parents), px(j) ==> isSecond(chains, parents[j]), spec.pos(j))
 //@   ensures [member] forall(j, 0, len(parents), px(j) ==> isSecond(chains, parents[j]))
 //@   ensures [distinct] forall(a, 0, len(parents), forall(b, 0, len(parents), px(a) && px(b) && ckey(parents[a]) == ckey(parents[b]) ==> parents[a] == parents[b]))
 //@   ensures parents == nil || fresh(parents)
+//@   ensures [nonempty] parents == nil || len(parents) >= 1
 
 // NewVerifier: "returns and initializes a new Verifier given a PKI graph".
 //@ func NewVerifier
@@ -211,3 +213,168 @@ package verifier
 //@   ensures [reason] result != nil && certType == x509.CertificateTypeIntermediate && !(c.BasicConstraintsValid && c.IsCA) ==> unboxed(result, x509.CertificateInvalidError).Reason == x509.NotAuthorizedToSign
 //@   ensures [reason] result != nil && !(certType == x509.CertificateTypeIntermediate && !(c.BasicConstraintsValid && c.IsCA)) ==> unboxed(result, x509.CertificateInvalidError).Reason == x509.TooManyIntermediates
 //@   terminates
+
+// ---------------------------------------------------------------- walk.go: the depth-first walker (property C11, round 2)
+//
+// continueWalking / walkFromEdgeToRoot are verified as sequential code: `found <- soFar` is an
+// event without heap effect on this goroutine (govc's model of a send); what is sent is
+// constrained by `at call send assert`. What the other goroutine does is outside the model.
+//
+// Well-formed graph region (helper precondition, derived from the dereferences of the code).
+// ghost.wnode / ghost.wset / ghost.wedge are free ghost sets of nodes, edge sets and edges
+// (nothing modifies them): the precondition asks for SOME region that contains `current`, is
+// closed under node -> parent edge set -> edge -> issuer node, and whose members are well
+// formed: every parent edge set exists, every edge in it exists and carries a certificate.
+// Callers instantiate the region with the objects of the graph (AddCert creates every node with
+// both maps, every edge with its certificate). allocated(..) says that these objects existed
+// before the call: the walker allocates new chains, and memory allocated later is
+// unconstrained in govc's model.
+//@ pred wkNodes(g) = forallv(n, *GraphNode, ghost.wnode(n) ==> n != nil && allocated(n) && allocated(n.parentsBySubjectAndKey) && forallv(k, subjectAndKeyFingerprint, has(n.parentsBySubjectAndKey, k) ==> ghost.wset(n.parentsBySubjectAndKey[k]), has(n.parentsBySubjectAndKey, k)), ghost.wnode(n))
+//@ pred wkSets(g) = forallv(es, *GraphEdgeSet, ghost.wset(es) ==> es != nil && allocated(es) && allocated(es.edges) && forallv(f, string, has(es.edges, f) ==> ghost.wedge(es.edges[f]), has(es.edges, f)), ghost.wset(es))
+//@ pred wkEdges(g) = forallv(e, *GraphEdge, ghost.wedge(e) ==> e != nil && allocated(e) && e.Certificate != nil && (e.issuer != nil ==> ghost.wnode(e.issuer)), ghost.wedge(e))
+// every node filed in the graph's index has its SubjectAndKey (dereferenced by the revisit test)
+//@ pred wkIndex(g) = g != nil && allocated(g) && allocated(g.nodesBySubjectAndKey) && forallv(k, subjectAndKeyFingerprint, has(g.nodesBySubjectAndKey, k) && g.nodesBySubjectAndKey[k] != nil ==> allocated(g.nodesBySubjectAndKey[k]) && g.nodesBySubjectAndKey[k].SubjectAndKey != nil, has(g.nodesBySubjectAndKey, k))
+//@ pred wkGraph(g) = wkIndex(g) && wkNodes(g) && wkSets(g) && wkEdges(g)
+// the prefix walked so far: 1..9 certificates, all non-nil, the first is the start edge's, the
+// last is the certificate of the edge travelled last. wkChain speaks about all positions but the
+// last; the last certificate is lastEdge.Certificate, required non-nil. Both are written as
+// quantified facts about a position i with the atom i+1 == len(ch): ground index terms such as
+// ch[len(ch)-1] are rewritten by the solvers (sums are flattened) and then no longer match.
+//@ pred wkChain(ch) = forall(i, 0, len(ch), i+1 == len(ch) || ch[i] != nil, ch[i])
+//@ pred wkLast(ch, c) = forall(i, 0, len(ch), i+1 == len(ch) ==> ch[i] == c, ch[i])
+// sk is the (subject, key) of no certificate of the chain
+//@ pred skAbsent(sk, ch) = forall(i, 0, len(ch), !eq(sk.RawSubject, ch[i].RawSubject) || !eq(sk.RawSubjectPublicKeyInfo, ch[i].RawSubjectPublicKeyInfo), ch[i])
+// e is an edge filed in one of the parent edge sets of node n, under index key k
+//@ pred parentEdge(n, k, e) = has(n.parentsBySubjectAndKey, k) && isEdgeOf(n.parentsBySubjectAndKey[k], e)
+//@ pred edgeType(e) = ite(e.root, x509.CertificateTypeRoot, x509.CertificateTypeIntermediate)
+
+// sk-pair of certificate c occurs in no certificate of the chain
+//@ pred certAbsent(c, ch) = forall(i, 0, len(ch), !eq(c.RawSubject, ch[i].RawSubject) || !eq(c.RawSubjectPublicKeyInfo, ch[i].RawSubjectPublicKeyInfo), ch[i])
+
+// continueWalking(found, start, current, soFar, lastEdge). Every emitted chain is the prefix
+// soFar itself at a root edge ([send]); a prefix is extended only by the certificate of a parent
+// edge of `current` that passes the RFC 5280 4.2.1.9 admission test for its position (canAdd),
+// from a non-root edge ("stops at the first root edge"), while the prefix has fewer than 9
+// certificates; the recursive call continues at that edge's issuer with exactly the extended
+// prefix. By induction over the recursion every emitted chain starts with start.Certificate,
+// follows parent edges, ends at its first root edge, has at most maxIntermediateCount (9)
+// certificates, and every certificate after the first passed canAddToChain.
+// [norevisit] is the clause of C11 ("never revisits a (subject, key) pair"; WalkChainsAsync:
+// "returns all non-looping paths"): the appended certificate's own (subject, key) is new to the
+// prefix - by induction no emitted chain carries the same pair twice. (Round 2 found that the
+// code did not guarantee it: a self-issued non-root certificate was appended although the pair
+// it certifies had just been visited, see the notes; repaired in /repo 4edb208 by testing
+// soFar.CertificateSubjectAndKeyInChain(edge.Certificate) before the admission test.)
+// [revisit-issuer] is the older test on the issuer side: the (subject, key) of the index node
+// the edge set is filed under occurs in no certificate of the prefix.
+// Termination: the recursion depth is bounded (decreases); the two loops range over maps, for
+// which govc has no variant (no `terminates`).
+//@ func (*Graph).continueWalking
+//@   uses xadd
+//@   requires wkGraph(g)
+//@   requires start != nil && lastEdge != nil && allocated(lastEdge) && allocated(soFar)
+//@   requires 1 <= len(soFar) && len(soFar) <= maxIntermediateCount
+//@   requires wkChain(soFar)
+//@   requires soFar[0] == start.Certificate && wkLast(soFar, lastEdge.Certificate) && lastEdge.Certificate != nil
+//@   requires current != nil ==> ghost.wnode(current)
+//@   decreases maxIntermediateCount - len(soFar)
+//@   at call send assert arg0 == found && same(arg1, soFar) && lastEdge.root && 1 <= len(arg1) && len(arg1) <= maxIntermediateCount && arg1[0] == start.Certificate && wkLast(arg1, lastEdge.Certificate)
+//@   at call AppendToFreshChain assert same(arg0, soFar) && arg1 == edge.Certificate && !lastEdge.root && len(soFar) < maxIntermediateCount && parentEdge(current, skfp, edge) && canAdd(edge.Certificate, edgeType(edge), len(soFar))
+//@   at call AppendToFreshChain assert [revisit-issuer] targetNode == g.nodesBySubjectAndKey[skfp] && (targetNode != nil ==> skAbsent(targetNode.SubjectAndKey, soFar))
+//@   at call AppendToFreshChain assert [norevisit] certAbsent(edge.Certificate, soFar)
+//@   at call continueWalking assert arg0 == g && arg1 == found && arg2 == start && arg3 == edge.issuer && same(arg4, nextSoFar) && arg5 == edge && len(arg4) == len(soFar) + 1 && forall(i, 0, len(soFar), arg4[i] == soFar[i]) && arg4[len(soFar)] == edge.Certificate
+//@   modifies nothing
+
+// walkFromEdgeToRoot(start, out): starts the walk with the one-certificate prefix
+// [start.Certificate] at start's issuer, on the channel it was given, and establishes the
+// walker's precondition. close(out) is not modelled by govc (treated as an unknown effect), so no
+// frame is stated; "closes the channel on every path" is visible in the code (straight line) but
+// not an obligation.
+//@ func (*Graph).walkFromEdgeToRoot
+//@   uses xadd
+//@   requires wkGraph(g)
+//@   requires start != nil && allocated(start) && start.Certificate != nil
+//@   requires start.issuer != nil ==> ghost.wnode(start.issuer)
+//@   at call continueWalking assert arg0 == g && arg1 == out && arg2 == start && arg3 == start.issuer && len(arg4) == 1 && arg4[0] == start.Certificate && arg5 == start
+//@   modifies all
+
+// WalkChainsAsync(c, opt): "immediately returns a channel"; the walk itself runs in the spawned
+// goroutine (outside the model: the `go` statement is an event; the spawned function's requires
+// are checked there, nothing is assumed about its effect).
+// Start-edge synthesis (C11 "start certificates in or out of the graph"):
+//  [go] the walk is started on the returned channel with a non-nil start edge; if c's fingerprint
+//       is filed in the graph it is that edge; otherwise it is a new non-root edge for c whose
+//       issuer, if set, is one of the nodes filed under c's issuer name
+//       (g.nodesBySubject[string(c.RawIssuer)]) for whose key
+//       CheckSignatureFromKey(key, c.SignatureAlgorithm, c.RawTBSCertificate, c.Signature)
+//       returned nil (ghost.keySigOK, the event defined in /verif/extern/verifier.contracts);
+//  [check] every signature check is made with exactly those arguments;
+//  [sigflag] c.ValidSignature is left alone unless it is set to true, and it is set only if c is
+//       in the graph ("we already trust the signatures in the graph") or a candidate's key verified it.
+// Helper preconditions: the well-formed region (wkGraph) contains every edge filed in g.edges
+// and every candidate node; candidates have a SubjectAndKey with a well-formed key (keyOK,
+// precondition of CheckSignatureFromKey; parsed keys satisfy it).
+//@ pred cands(g, c) = g.nodesBySubject[string(c.RawIssuer)]
+//@ pred candOK(n) = n != nil && ghost.wnode(n) && n.SubjectAndKey != nil && keyOK(n.SubjectAndKey.PublicKey)
+//@ pred verifiedBy(n, c) = ghost.keySigOK(n.SubjectAndKey.PublicKey, c.SignatureAlgorithm, c.RawTBSCertificate, c.Signature)
+//@ pred isCand(g, c, n) = !forall(i, 0, len(cands(g, c)), !(ix(i) && cands(g, c)[i] == n), spec.idx(i))
+//@ pred walkReq(g, c) = wkGraph(g) && g.edges != nil && c != nil && forallv(k, string, has(g.edges.edges, k) ==> ghost.wedge(g.edges.edges[k]), has(g.edges.edges, k)) && forall(i, 0, len(cands(g, c)), ix(i) ==> candOK(cands(g, c)[i]), spec.idx(i))
+//@ func (*Graph).WalkChainsAsync
+//@   uses xadd
+//@   requires walkReq(g, c)
+//@   loop 1 invariant 0 <= it && it <= len(parentCandidates) && ix(it)
+//@   loop 1 invariant start != nil && fresh(start) && start.Certificate == c && start.issuer == nil && !start.root
+//@   loop 1 invariant c.ValidSignature == old(c.ValidSignature)
+//@   at call CheckSignatureFromKey assert [check] arg0 == candidate.SubjectAndKey.PublicKey && arg1 == c.SignatureAlgorithm && same(arg2, c.RawTBSCertificate) && same(arg3, c.Signature)
+//@   at call go assert [go] arg0 == g && arg2 == out && arg1 != nil && (old(inSet(g.edges, certKey(c))) ==> arg1 == old(g.edges.edges[certKey(c)]))
+//@   at call go assert [go] !old(inSet(g.edges, certKey(c))) ==> fresh(arg1) && arg1.Certificate == c && !arg1.root && (arg1.issuer != nil ==> isCand(g, c, arg1.issuer) && verifiedBy(arg1.issuer, c))
+//@   ensures [chan] result != nil && fresh(result)
+//@   ensures [sigflag] c.ValidSignature || c.ValidSignature == old(c.ValidSignature)
+//@   ensures [sigflag] old(inSet(g.edges, certKey(c))) ==> c.ValidSignature
+//@   ensures [sigflag] c.ValidSignature && !old(c.ValidSignature) && !old(inSet(g.edges, certKey(c))) ==> !forall(i, 0, len(cands(g, c)), !(ix(i) && verifiedBy(cands(g, c)[i], c)), spec.idx(i))
+//@   modifies c.ValidSignature, ghost.keySigOK, ghost.bigEq, ghost.bigStr
+
+// ---------------------------------------------------------------- verifier.go: VerifyWithContext (property C12, round 2)
+//
+// Result assembly. (*Graph).WalkChains has an ASSUMED contract (/verif/extern/verifier.contracts:
+// goroutine + channel), the RevocationProvider methods have assumed contracts (no panic, nothing
+// pre-existing written); everything else is proved against the real code.
+//  [name]     res.Name is the requested name; without a name there is no name error; with a
+//             name the error is what c.VerifyHostname(name) returned (at call VerifyHostname);
+//  [type]     the documented CertificateType rule: root iff filed in the graph with the root
+//             mark, else intermediate iff IsCA with a parent, else leaf iff a parent, else unknown;
+//  [parents]  Parents come from ValidAtExpirationChains if Expired, else from CurrentChains
+//             (at call parentsFromChains), every parent is the second certificate of a chain of
+//             that list, one per fingerprint (parentsFromChains' contract restated on the result);
+//  [flow]     both date filters get the right input: the walked chains at the verification time,
+//             then the three lists concatenated at NotAfter minus one second;
+//  [fresh]    the result is a new object.
+//@ pred isRootIn(g, c) = inSet(g.edges, certKey(c)) && g.edges.edges[certKey(c)].root
+//@ pred relevantChains(res) = ite(res.Expired, res.ValidAtExpirationChains, res.CurrentChains)
+//@ pred secondOf(chains, p) = !forall(i, 0, len(chains), !(ix(i) && len(chains[i]) >= 2 && p == chains[i][1]), spec.idx(i))
+// every certificate that exists carries validity dates without monotonic clock reading (they come
+// from parsing or time.Date; only time.Now returns such readings): precondition of FilterByDate
+// and of the documented meaning of TimeInValidityPeriod.
+//@ pred certOK(c) = c != nil && allocated(c) && allocated(c.Extensions) && allocated(c.DNSNames) && allocated(c.IPAddresses) && forall(j, 0, len(c.Extensions), allocated(c.Extensions[j].Id), spec.mark(j)) && forall(j, 0, len(c.IPAddresses), allocated(c.IPAddresses[j]), spec.mark(j))
+//@ func (*Verifier).VerifyWithContext
+//@   uses xadd
+//@   requires v != nil && v.PKI != nil && certOK(c)
+//@   requires walkReq(v.PKI, c)
+//@   requires forallv(x, *x509.Certificate, x != nil && allocated(x) ==> !hasMono(x.NotBefore), hasMono(x.NotBefore))
+//@   requires forallv(x, *x509.Certificate, x != nil && allocated(x) ==> !hasMono(x.NotAfter), hasMono(x.NotAfter))
+//@   requires opts.OneCRL == nil && opts.CRLSet == nil
+//@   at call VerifyHostname assert arg0 == c && arg1 == opts.Name
+//@   at call FilterByDate#1 assert same(arg0, graphChains) && same(arg1, opts.VerifyTime)
+//@   at call Add assert same(arg0, c.NotAfter) && arg1 == -1000000000
+//@   at call FilterByDate#2 assert same(arg0, allChains) && same(arg1, expirationTime)
+//@   at call parentsFromChains#1 assert res.Expired && same(arg0, res.ValidAtExpirationChains)
+//@   at call parentsFromChains#2 assert !res.Expired && same(arg0, res.CurrentChains)
+//@   ensures [fresh] res != nil && fresh(res)
+//@   ensures [name] res.Name == opts.Name && (len(opts.Name) == 0 ==> res.NameError == nil)
+//@   ensures [type] isRootIn(v.PKI, c) ==> res.CertificateType == x509.CertificateTypeRoot
+//@   ensures [type] !isRootIn(v.PKI, c) && c.IsCA && len(res.Parents) > 0 ==> res.CertificateType == x509.CertificateTypeIntermediate
+//@   ensures [type] !isRootIn(v.PKI, c) && !c.IsCA && len(res.Parents) > 0 ==> res.CertificateType == x509.CertificateTypeLeaf
+//@   ensures [type] !isRootIn(v.PKI, c) && len(res.Parents) == 0 ==> res.CertificateType == x509.CertificateTypeUnknown
+//@   ensures [parents] forall(j, 0, len(res.Parents), px(j) ==> secondOf(relevantChains(res), res.Parents[j]), spec.pos(j))
+//@   ensures [revset] !res.InRevocationSet
+//@   modifies c.ValidSignature, ghost.walked, ghost.keySigOK, ghost.bigEq, ghost.bigStr
